@@ -114,3 +114,73 @@ Theorem C29_merge_swap_partial :
   end.
 Proof. exact merge_swap_partial. Qed.
 Print Assumptions C29_merge_swap_partial.
+
+(* ---- round 2 ---- *)
+Theorem C29_row_merge_refines_spec_exact :
+  forall sb sl sr ob ol or,
+  schemas_ok sb sl sr -> conv_ok sl sr ol or -> delete_exact sb sl sr ob ol or ->
+  row_merge true sb sl sr ob ol or
+  = ROk (fst (spec_row sb sl sr ob ol or)) (snd (spec_row sb sl sr ob ol or)).
+Proof. exact row_merge_refines_spec_exact. Qed.
+Print Assumptions C29_row_merge_refines_spec_exact.
+
+Theorem C29_merge_swap :
+  forall sb sl sr b l r k,
+  schemas_ok sb sl sr -> conv_ok sl sr (get k l) (get k r) ->
+  delete_exact sb sl sr (get k b) (get k l) (get k r) ->
+  let M1 := table_merge true sb sl sr b l r in
+  let M2 := table_merge true sb sr sl b r l in
+  match getc k (m_conf M1), getc k (m_conf M2) with
+  | None, None =>
+      same_data (merged_schema sb sl sr) (get k (m_rows M1)) (merged_schema sb sr sl) (get k (m_rows M2))
+  | Some (b1, o1, t1), Some (b2, o2, t2) =>
+      b1 = b2 /\ t1 = get k r /\ t2 = get k l
+      /\ o1 = option_map (remap (merged_schema sb sl sr) sl) (get k l)
+      /\ o2 = option_map (remap (merged_schema sb sr sl) sr) (get k r)
+  | _, _ => False
+  end.
+Proof. exact merge_swap. Qed.
+Print Assumptions C29_merge_swap.
+
+Theorem C29_spec_swap :
+  forall sb sl sr ob ol or,
+  snd (spec_row sb sl sr ob ol or) = snd (spec_row sb sr sl ob or ol)
+  /\ (snd (spec_row sb sl sr ob ol or) = false ->
+      same_data (merged_schema sb sl sr) (fst (spec_row sb sl sr ob ol or))
+                (merged_schema sb sr sl) (fst (spec_row sb sr sl ob or ol))).
+Proof. exact spec_swap. Qed.
+Print Assumptions C29_spec_swap.
+
+Theorem C29_compat_schemas_ok :
+  forall sb sl sr, compatb sb sl sr = true -> schemas_ok sb sl sr.
+Proof. exact compat_schemas_ok. Qed.
+Print Assumptions C29_compat_schemas_ok.
+
+Theorem C29_schemas_ok_decidable :
+  forall sb sl sr, schemas_okb sb sl sr = true <-> schemas_ok sb sl sr.
+Proof. exact schemas_okb_iff. Qed.
+Print Assumptions C29_schemas_ok_decidable.
+
+Theorem C29_conflict_iff_in_scope :
+  forall sb sl sr b l r k,
+  in_scope sb sl sr (get k b) (get k l) (get k r) = true ->
+  (exists e, getc k (m_conf (table_merge true sb sl sr b l r)) = Some e)
+  <-> conflict_prop sb sl sr (get k b) (get k l) (get k r).
+Proof. exact conflict_iff_in_scope. Qed.
+Print Assumptions C29_conflict_iff_in_scope.
+
+Theorem C29_conflict_iff_boundary :
+  forall sb sl sr b r,
+  side_diff (side_flag sb sr sl) (Some b) (Some r) = true ->
+  ((exists v, row_merge true sb sl sr (Some b) None (Some r) = ROk v true)
+   <-> conflict_prop sb sl sr (Some b) None (Some r))
+  <-> delete_exact sb sl sr (Some b) None (Some r).
+Proof. exact conflict_iff_boundary. Qed.
+Print Assumptions C29_conflict_iff_boundary.
+
+Theorem C29_oracle_on_model :
+  forall i,
+  (forall k, in_scope (i_sb i) (i_sl i) (i_sr i) (get k (i_b i)) (get k (i_l i)) (get k (i_r i)) = true) ->
+  oracle i (model_obs i) = true.
+Proof. exact oracle_on_model. Qed.
+Print Assumptions C29_oracle_on_model.
